@@ -307,3 +307,47 @@ theorem noCrLf_replCrlf (p : Bool) (c : Bytes) (h1 : allCrLf p c = true) (h2 : n
     · left; simpa using hp
 
 end BreezyVerif.C45
+
+namespace BreezyVerif.C45
+
+/-! ### a file is empty iff its conversion is empty (`FilteredStat`'s
+`st_size or base.st_size` therefore never picks the wrong size) -/
+
+theorem replCrlf_eq_nil (c : Bytes) : replCrlf c = [] ↔ c = [] := by
+  fun_induction replCrlf c <;> simp
+
+theorem subUnixNl_eq_nil (p : Bool) (c : Bytes) : subUnixNl p c = [] ↔ c = [] := by
+  cases c with
+  | nil => simp [subUnixNl]
+  | cons b rest =>
+    simp only [subUnixNl]
+    split <;> simp
+
+theorem toLf_eq_nil (c : Bytes) : toLf c = [] ↔ c = [] := by
+  unfold toLf
+  split
+  · exact Iff.rfl
+  · exact replCrlf_eq_nil c
+
+theorem toCrlf_eq_nil (c : Bytes) : toCrlf c = [] ↔ c = [] := by
+  unfold toCrlf
+  split
+  · exact Iff.rfl
+  · exact subUnixNl_eq_nil false c
+
+/-- with no filter, or filters without readers, nothing is converted -/
+theorem readIn_nil (d : Bytes) : readIn [] d = d := by
+  simp [readIn, inputFile]
+
+/-- the provider hashes exactly the read-converted file (the `if filters:`
+short cut is the identity conversion) -/
+theorem hashedText_eq (stack : List Filter) (d : Bytes) : hashedText stack d = readIn stack d := by
+  unfold hashedText
+  split
+  · rename_i h
+    have : stack = [] := by simpa using h
+    subst this
+    exact (readIn_nil d).symm
+  · rfl
+
+end BreezyVerif.C45
